@@ -305,8 +305,10 @@ pub fn check_trace(inp: &TraceInput<'_>) -> (Vec<Violation>, TraceStats) {
                     finality_published = idx;
                 }
                 Event::CommitTake { txid } => {
-                    if txid >= finality_published {
-                        out.push(v("STEP", "C02", format!("commit took tx {txid} but finality is only published up to {finality_published}")));
+                    // (`Finality` is emitted under the tx lock before the cursor is published;
+                    // `FinalityPublished` only after the store, so it cannot be used here.)
+                    if txid < inp.n_txs && !final_seen[txid] {
+                        out.push(v("STEP", "C02", format!("commit took tx {txid} before it became final")));
                     }
                 }
                 Event::CommitNonceFallback { .. } => st.nonce_fallbacks += 1,
@@ -531,6 +533,13 @@ pub fn check_trace(inp: &TraceInput<'_>) -> (Vec<Violation>, TraceStats) {
     }
     if !inp.errored && inp.outcomes.len() != inp.n_txs {
         out.push(v("STEP", "C01", format!("execution succeeded with {} outcomes for {} transactions", inp.outcomes.len(), inp.n_txs)));
+    }
+    if st.park_timeouts > 0 {
+        out.push(v(
+            "STALL",
+            "C17",
+            format!("{} coordinator park(s) were ended by the (timeout-free) stall timer: a waiter slept through a notification it needed", st.park_timeouts),
+        ));
     }
     if st.threads_started != st.threads_ended {
         out.push(v("PANIC", "C05", format!("{} scheduler threads started but {} ended", st.threads_started, st.threads_ended)));
